@@ -67,7 +67,8 @@ def register(reg, prog):
         '_ctx': Opt(Ref('TCPPool')), '_my_max_message_size': INT, '_local_is_server': BOOL})
     reg.declare_class('Transport', 'asyncio:Transport', opaque=True)
     reg.declare_class('TCPPool', 'aiocoap.transports.tcp:_TCPPooling', fields={'_tokenmanager': Opt(Ref('TokenManagerI'))})
-    reg.declare_class('TokenManagerI', 'aiocoap.interfaces:TokenManager', opaque=True)
+    if 'TokenManagerI' not in reg.classes:       # declared by mm.py (with the log / loop fields its constructor reads)
+        reg.declare_class('TokenManagerI', 'aiocoap.interfaces:TokenManager', opaque=True)
     reg.declare_class('CloseConnection', 'aiocoap.transports.rfc8323common:CloseConnection',
                       fields={'args': Tuple(Ref('builtins:Exception'))})
 
